@@ -245,12 +245,16 @@ def reset_infretis_globals():
                     pass
 
 
+CHECK_STORE = False      # set by the C14 check: compare live paths with their stored form after every step
+
+
 class Segment:
     """One process lifetime of infretis in `rundir` (a fresh start or a restart)."""
 
     def __init__(self, rundir, inp="infretis.toml"):
         self.rundir = rundir
         self.inp = inp
+        self.check_store = CHECK_STORE
         self.events = []
         self.inflight = {}        # pin -> md_items
         self.fp_ids = None
@@ -424,7 +428,8 @@ class Segment:
         args = {"pin": snap["pin"], "acc": md["status"] == "ACC", "status": str(md["status"]), "ens": snap["ens"],
                 "old": snap["old"], "new": new, "dfrac": dfrac, "rows": rows, "rec": self.read_restart(),
                 "frac": [[pn, self.frac_of(pn) if pn in st.traj_data else None] for pn in sorted(post)],
-                "store": self.store_view(), "foreign": int(getattr(self, "_foreign", 0)),
+                "store": self.store_check() if getattr(self, "check_store", False) else {"checked": False, "present": [], "live_ok": True, "bad": []},
+                "foreign": int(getattr(self, "_foreign", 0)),
                 "foreign_who": list(getattr(self, "_foreign_who", []))[:5]}
         self._foreign = 0
         return self.emit("Complete", args)
@@ -504,6 +509,57 @@ class Segment:
                     except (ValueError, IndexError):
                         pns.append(-1)
         return pns
+
+    def store_check(self):
+        """Compare every live path in memory with what load_path() reads back from its directory,
+        and list the path directories that are complete on disk."""
+        from infretis.classes.path import load_path
+        st = self.state
+        load = os.path.join(self.rundir, st.config["simulation"]["load_dir"])
+        bad = []
+        for t in st._trajs[:self.N]:
+            pn = int(t.path_number)
+            pdir = os.path.join(load, str(pn))
+            acc = os.path.join(pdir, "accepted") + os.sep
+            try:
+                lp = load_path(pdir)
+            except BaseException as exc:  # noqa: BLE001
+                bad.append([pn, f"load_path raised {type(exc).__name__}: {exc}"[:200]])
+                continue
+            if lp.length != t.length:
+                bad.append([pn, f"length {lp.length} on disk, {t.length} in memory"])
+                continue
+            for k, (a, b) in enumerate(zip(t.phasepoints, lp.phasepoints)):
+                why = None
+                if not os.path.isfile(a.config[0]):
+                    why = f"frame {k}: file {a.config[0]} does not exist"
+                elif not os.path.abspath(a.config[0]).startswith(os.path.abspath(acc)):
+                    why = f"frame {k}: file {a.config[0]} is outside the path's own directory"
+                elif os.path.basename(a.config[0]) != os.path.basename(b.config[0]) or int(a.config[1] or 0) != int(b.config[1]):
+                    why = f"frame {k}: reference {os.path.basename(a.config[0])}:{a.config[1]} stored as {os.path.basename(b.config[0])}:{b.config[1]}"
+                elif bool(a.vel_rev) != bool(b.vel_rev):
+                    why = f"frame {k}: vel_rev {a.vel_rev} stored as {b.vel_rev}"
+                elif abs(float(a.order[0]) - float(b.order[0])) > 5.1e-7:
+                    why = f"frame {k}: order {a.order[0]} stored as {b.order[0]}"
+                else:
+                    for key in ("vpot", "ekin"):
+                        x, y = getattr(a, key, None), getattr(b, key, None)
+                        xn = x is None or (isinstance(x, float) and x != x)
+                        yn = y is None or (isinstance(y, float) and y != y)
+                        if xn != yn or (not xn and abs(float(x) - float(y)) > 5.1e-7):
+                            why = f"frame {k}: {key} {x} stored as {y}"
+                if why:
+                    bad.append([pn, why])
+                    break
+        present = []
+        for d in os.listdir(load):
+            if d.isdigit():
+                pd = os.path.join(load, d)
+                acc = os.path.join(pd, "accepted")
+                if os.path.isfile(os.path.join(pd, "traj.txt")) and os.path.isfile(os.path.join(pd, "order.txt")) \
+                        and os.path.isdir(acc) and os.listdir(acc):
+                    present.append(int(d))
+        return {"checked": True, "present": sorted(present), "live_ok": not bad, "bad": bad[:4]}
 
     def store_view(self):
         """Which path directories exist under load/ and whether their files are there."""
